@@ -9,6 +9,7 @@ CONSTANTS
   RNG = "local"
   AddrBytes = "fill"
   NetBase = "masked"
+  DerivedMode = "once"
 VIEW view
 INVARIANT Emit
 CHECK_DEADLOCK FALSE
